@@ -120,6 +120,32 @@ def fq_cbrt(a):
     return r if pow(r, 3, Q) == a else None
 
 
+SMALL_ORDERS = {1: [3, 11, 10177], 2: [13, 23, 2713]}      # small prime factors of the two cofactors
+_SMALL_CACHE = {}
+
+
+def small_order_point(which, rng, ell=None):
+    """a curve point (G1 curve / G2 twist) of order exactly ell, a small prime dividing the cofactor: on the curve, canonical, NOT in the
+    order-r subgroup - and annihilated by far more multipliers than a generic non-subgroup point"""
+    E = E1 if which == 1 else E2
+    H = H1 if which == 1 else H2
+    ell = ell or rng.choice(SMALL_ORDERS[which])
+    base = _SMALL_CACHE.get((which, ell))
+    if base is not None:
+        return E.mul(base, rng.randrange(1, ell)), ell          # another point of the same (prime) order
+    m = H
+    while m % ell == 0:
+        m //= ell
+    while True:
+        P = _find_point1(rng) if which == 1 else find_point2(rng)
+        T = E.mul(P, m * R)                 # in the ell-primary part; walk down to order exactly ell
+        while T is not None and E.mul(T, ell) is not None:
+            T = E.mul(T, ell)
+        if T is not None:
+            _SMALL_CACHE[(which, ell)] = T
+            return T, ell
+
+
 def sort_greater(which, y):
     """does the library call y the GREATER of the two roots y, -y?  Its sort rule compares the internal Montgomery forms (known finding C02:
     Fq::compare does not order by value - changing that would be a wire-format change), for Fq2 the u-coefficient first, then the other"""
